@@ -136,9 +136,10 @@ def run(chk):
                                   "proofs under different external randomness share %s (statement-fixed components that moved: %s)" % (shared, moved))
     chk.finish(
         rule="TLC checks NonceInjective (exactly DrawCount draws, each one changes the proof, statement-fixed components never move) and BlindingPresent "
-             "on the reference prover for every shape n1 <= %d, n2 <= %d with sampled values; recorded toy runs must equal the reference prover's output "
-             "computed by TLC from the witness and the recorded RNG stream (so every blinding scalar is its own fresh draw of that stream), with the RNG "
-             "built as fork + one rekey per commitment blinding + finalize over 32 external bytes; on the 256-bit curves proofs of the same statement "
+             "on the reference prover for every shape n1 <= %d, n2 <= %d with sampled values; for every recorded toy31723 run the harness finds out by intervention which draw of the prover's RNG "
+             "stream plays which role; TLC demands a bijection between the used draws and the protocol's roles and that the emitted proof equals the reference "
+             "prover's output on the witness and those draws, role by role (every blinding scalar its own fresh draw; the order of draws is not assumed), with the RNG "
+             "built as fork + one rekey per commitment blinding (in any order) + finalize over 32 external bytes; on the 256-bit curves proofs of the same statement "
              "under three external seeds share no component outside FixedComponents and the same seed reproduces the proof. distinct = programs" % ((3, 2) if q else (5, 4)),
         assumptions=["which RNG draw plays which role is determined by intervention (the k-th draw is disturbed through the traced Merlin copy and the "
                      "first group of commitments that moves names its role); the order of the draws is therefore not assumed. Runs whose roles cannot "
